@@ -21,6 +21,17 @@ if TYPE_CHECKING:
 MISSING = object()
 
 
+def _contains(items: list[object], item: object) -> bool:
+    """Return `True` if _item_ is equal to one of _items_.
+
+    Booleans are only equal to booleans, as they are when compared in a template.
+    Remember `True == 1` and `False == 0` in Python.
+    """
+    if isinstance(item, bool):
+        return any(isinstance(i, bool) and i == item for i in items)
+    return any(not isinstance(i, bool) and i == item for i in items)
+
+
 class UniqFilter:
     """An implementation of the `uniq` filter that accepts lambda expressions."""
 
@@ -72,7 +83,7 @@ class UniqFilter:
 
             for item, rv in zip(left, key.map(context, left), strict=True):
                 current_key = MISSING if is_undefined(rv) else rv
-                if current_key not in keys:
+                if not _contains(keys, current_key):
                     keys.append(current_key)
                     items.append(item)
 
@@ -92,10 +103,14 @@ class UniqFilter:
                         token=None,
                     ) from err
 
-                if item not in keys:
+                if not _contains(keys, item):
                     keys.append(item)
                     result.append(obj)
 
             return result
 
-        return [obj for i, obj in enumerate(left) if left.index(obj) == i]
+        result = []
+        for obj in left:
+            if not _contains(result, obj):
+                result.append(obj)
+        return result
